@@ -17,38 +17,7 @@
 (* for the uncut text the events equal ToStream of every document (members  *)
 (* in document order) and FromStream rebuilds the documents.                *)
 (***************************************************************************)
-EXTENDS Stream, TLC
-
-CONSTANTS MaxNodes, MaxDocs
-
-Scalars == {Num(1), Str(<<97>>)}
-Keys == {<<97>>, <<98>>}
-Leaves == Scalars \cup {EmptyArr, EmptyObj}
-Sep == <<10>>
-
-InjSeqs(l) == {ks \in [1..l -> Keys] : \A i, j \in 1..l : i # j => ks[i] # ks[j]}
-
-RECURSIVE Forests(_, _), Trees(_)
-\* the sequences of at most m documents with exactly n nodes in total
-Forests(n, m) ==
-  IF n = 0 THEN {<<>>} ELSE IF m = 0 THEN {}
-  ELSE UNION {{<<d>> \o f : d \in Trees(k), f \in Forests(n - k, m - 1)} : k \in 1..n}
-Trees(n) ==
-  IF n = 1 THEN Leaves
-  ELSE {Arr(f) : f \in Forests(n - 1, n)}
-       \cup UNION {{Obj([i \in 1..Len(f) |-> <<ks[i], f[i]>>]) : ks \in InjSeqs(Len(f))} : f \in Forests(n - 1, Cardinality(Keys))}
-
-RECURSIVE TextOf(_, _)
-TextOf(f, i) == IF i > Len(f) THEN <<>> ELSE JsonText(f[i]).s \o (IF i < Len(f) THEN Sep ELSE <<>>) \o TextOf(f, i + 1)
-
-RECURSIVE AllEventEnds(_, _, _)
-\* events of all documents with their completing byte; plus the clean cut positions
-AllEventEnds(f, i, off) ==
-  IF i > Len(f) THEN [evs |-> <<>>, clean |-> {}]
-  ELSE LET x == EventEnds(f[i], <<>>, off)
-           r == AllEventEnds(f, i + 1, x.next + Len(Sep))
-       IN [evs |-> x.evs \o r.evs,
-           clean |-> {c \in (x.next - 1)..(x.next - 1 + Len(Sep)) : i < Len(f) \/ c = x.next - 1} \cup r.clean]
+EXTENDS StreamUniverse
 
 VARIABLES docs, cut, s, iter, pc, out, nerr
 vars == <<docs, cut, s, iter, pc, out, nerr>>
